@@ -11,6 +11,7 @@
    As in Model.v the loop's choice is an input: steps are [TExt t a] (control event a handled at time t),
    [TFireTick] (the loop runs the system timer), [TFirePause] (the loop runs the 'pause' delay -> start()). *)
 From Common Require Import Prelude.
+From C13 Require Import Model.
 Open Scope Z_scope.
 
 Record tcfg := mkC { c_start : Z; c_end : option Z; c_max : Z (* 0: none *); c_down : bool; c_ival : Z;
@@ -20,30 +21,57 @@ Inductive tev :=
 | TStarted (t k : Z) | TStopped (t k : Z) | TPaused (t k : Z) | TComplete (t k : Z)
 | TTick (t k : Z) (r : bool)            (* timer_<n>_tick with ticks=k; r: timer.running *)
 | TAdded (t k : Z) | TSubtracted (t k : Z)
-| TState (t : Z) (running : bool) (k : Z) (has_pause has_sys : bool)
+| TState (t : Z) (running : bool) (k : Z) (has_pause has_sys : bool) (pause_due : Z)
+| TDue (d : Z)                          (* late dispatch: the scheduled-for instant of the tick being run *)
 | TOof | TReject (code : Z).
 
-Record tst := mkTS { running : bool; ticks : Z; ival : Z; sys : option (Z * Z); pause : option Z;
+(* [dm]: the timer's private DelayManager (self.delay = DelayManager(machine)) as an instance of the full delay model
+   of Model.v: table, live loop handles, event log.  Its only delay is 'pause' (name PAUSE, callback id 0 = self.start).
+   [pause] is the deadline of that delay as the timer lemmas use it; that it IS the deadline of the live handle named
+   PAUSE in [dm], and that [dm] satisfies the invariant behind all delay_* theorems, is proved (TimerLemmas.v,
+   timer_pause_is_delay), not assumed.  What the model reports about the pause delay (TState) is read from [dm]. *)
+Record tst := mkTS { running : bool; ticks : Z; ival : Z; sys : option (Z * Z); pause : option Z; dm : state;
                      tnow : Z; tlog : list tev }.
+Definition PAUSE : Z := 0.
 
 Inductive taction :=
 | AStart | AStop | APause (ms : Z) | AAdd (v : Z) | ASub (v : Z) | AJump (v : Z) | AReset | ARestart
 | AChange (num den : Z) | ASetIval (us : Z) | AResetIval | ANop.
 
 Definition post (e : tev) (st : tst) : tst :=
-  mkTS (running st) (ticks st) (ival st) (sys st) (pause st) (tnow st) (e :: tlog st).
+  mkTS (running st) (ticks st) (ival st) (sys st) (pause st) (dm st) (tnow st) (e :: tlog st).
 Definition set_running (b : bool) (st : tst) : tst :=
-  mkTS b (ticks st) (ival st) (sys st) (pause st) (tnow st) (tlog st).
+  mkTS b (ticks st) (ival st) (sys st) (pause st) (dm st) (tnow st) (tlog st).
 Definition set_ticks (k : Z) (st : tst) : tst :=
-  mkTS (running st) k (ival st) (sys st) (pause st) (tnow st) (tlog st).
+  mkTS (running st) k (ival st) (sys st) (pause st) (dm st) (tnow st) (tlog st).
 Definition set_ival (i : Z) (st : tst) : tst :=
-  mkTS (running st) (ticks st) i (sys st) (pause st) (tnow st) (tlog st).
+  mkTS (running st) (ticks st) i (sys st) (pause st) (dm st) (tnow st) (tlog st).
 Definition set_sys (s : option (Z * Z)) (st : tst) : tst :=
-  mkTS (running st) (ticks st) (ival st) s (pause st) (tnow st) (tlog st).
+  mkTS (running st) (ticks st) (ival st) s (pause st) (dm st) (tnow st) (tlog st).
 Definition set_pause (p : option Z) (st : tst) : tst :=
-  mkTS (running st) (ticks st) (ival st) (sys st) p (tnow st) (tlog st).
+  mkTS (running st) (ticks st) (ival st) (sys st) p (dm st) (tnow st) (tlog st).
+Definition set_dm (d : state) (st : tst) : tst :=
+  mkTS (running st) (ticks st) (ival st) (sys st) (pause st) d (tnow st) (tlog st).
 Definition set_now (t : Z) (st : tst) : tst :=
-  mkTS (running st) (ticks st) (ival st) (sys st) (pause st) t (tlog st).
+  mkTS (running st) (ticks st) (ival st) (sys st) (pause st) (dm st) t (tlog st).
+
+(* the private manager at the timer's present instant *)
+Definition sync (st : tst) : state :=
+  mkS (tnow st) (next (dm st)) (dict (dm st)) (timers (dm st)) (log (dm st)).
+(* self.delay.remove('pause') *)
+Definition pause_remove (st : tst) : tst := set_dm (do_remove PAUSE (sync st)) (set_pause None st).
+(* self.delay.add(name='pause', ms=ms, callback=self.start) *)
+Definition pause_add (ms : Z) (st : tst) : tst :=
+  set_dm (do_add ms PAUSE 0 [] (sync st)) (set_pause (Some (tnow st + 1000 * ms)) st).
+(* the loop runs the 'pause' delay: DelayManager._process_delay_callback deletes the entry and calls self.start (the
+   body of the callback belongs to the timer, so the manager's view of it is just the call event) *)
+Definition call_rec : callfn := fun u cb kw rn s => emit (ECall (now s) u cb kw rn) s.
+Definition pause_id (st : tst) : Z :=
+  match find (name_is PAUSE) (timers (dm st)) with Some tm => t_id tm | None => -1 end.
+Definition pause_fired (d : Z) (st : tst) : tst :=
+  set_dm (fire call_rec (pause_id st) (sync st)) (set_pause None (set_now d st)).
+Definition pause_due (st : tst) : Z :=
+  match find (name_is PAUSE) (timers (dm st)) with Some tm => t_when tm | None => -1 end.
 
 Definition done_at (c : tcfg) (k : Z) : bool :=
   match c_end c with
@@ -59,7 +87,7 @@ Definition create_sys (st : tst) : tst := set_sys (Some (tnow st, 1)) st.
 
 (* stop(): delay.remove('pause'); running = False; _remove_system_timer(); post stopped *)
 Definition do_stop (st : tst) : tst :=
-  let st1 := set_sys None (set_running false (set_pause None st)) in
+  let st1 := set_sys None (set_running false (pause_remove st)) in
   post (TStopped (tnow st1) (ticks st1)) st1.
 
 Definition cdfn := tst -> tst * bool.     (* _check_for_done of lower nesting *)
@@ -74,7 +102,7 @@ Definition start_with (cd : cdfn) (st : tst) : tst :=
   if running st then st else
   let (st1, d) := cd st in
   if d then st1 else
-  let st2 := create_sys (set_pause None (set_running true st1)) in
+  let st2 := create_sys (pause_remove (set_running true st1)) in
   post_tick_with cd (post (TStarted (tnow st2) (ticks st2)) st2).
 
 (* jump(v) *)
@@ -107,10 +135,10 @@ Definition cd0 (c : tcfg) : cdfn := check_done FUEL c.
 (* pause(ms) *)
 Definition do_pause (c : tcfg) (ms : Z) (st : tst) : tst :=
   let st0 := set_running false st in
-  let st1 := if c_legacy c then st0 else set_pause None st0 in
+  let st1 := if c_legacy c then st0 else pause_remove st0 in
   let st2 := set_sys None st1 in
   let st3 := post (TPaused (tnow st2) (ticks st2)) st2 in
-  if 0 <? ms then set_pause (Some (tnow st3 + 1000 * ms)) st3 else st3.
+  if 0 <? ms then pause_add ms st3 else st3.
 
 Definition do_action (c : tcfg) (a : taction) (st : tst) : tst :=
   match a with
@@ -157,11 +185,40 @@ Definition fire_pause (c : tcfg) (st : tst) : tst :=
   | None => post (TReject 3) st
   | Some d =>
       if (tnow st <=? d) && le_opt d (sys_deadline st)
-      then start_with (cd0 c) (set_pause None (set_now d st))
+      then start_with (cd0 c) (pause_fired d st)
       else post (TReject 4) st
   end.
 
-Inductive tstep := TExt (t : Z) (a : taction) | TFireTick | TFirePause.
+(* ---- a loop that dispatches late: the system timer's _run / the pause delay run at t >= their deadline d (several
+   deadlines may be due at once; they run in deadline order).  PeriodicTask keeps its absolute base: the next tick is due
+   at b + (n+1)*ival whatever t was (catch-up when that is already past); the pause delay is dispatched through the full
+   delay model's [fire_at].  Everything the handlers do is stamped with the observed instant t. *)
+Definition fire_tick_at (c : tcfg) (t : Z) (st : tst) : tst :=
+  match sys st with
+  | None => post (TReject 1) st
+  | Some (b, n) =>
+      let d := b + n * ival st in
+      if (tnow st <=? t) && (d <=? t) && le_opt d (pause st) then
+        let st1 := post (TDue d) (set_sys (Some (b, n + 1)) (set_now t st)) in
+        if running st1
+        then post_tick_with (cd0 c) (set_ticks (if c_down c then ticks st1 - 1 else ticks st1 + 1) st1)
+        else set_sys None st1
+      else post (TReject 2) st
+  end.
+
+Definition pause_fired_at (t : Z) (st : tst) : tst :=
+  set_dm (fire_at call_rec (pause_id st) t (sync st)) (set_pause None (set_now t st)).
+
+Definition fire_pause_at (c : tcfg) (t : Z) (st : tst) : tst :=
+  match pause st with
+  | None => post (TReject 3) st
+  | Some d =>
+      if (tnow st <=? t) && (d <=? t) && le_opt d (sys_deadline st)
+      then start_with (cd0 c) (pause_fired_at t st)
+      else post (TReject 4) st
+  end.
+
+Inductive tstep := TExt (t : Z) (a : taction) | TFireTick | TFirePause | TFireTickAt (t : Z) | TFirePauseAt (t : Z).
 
 Definition text_ok (t : Z) (st : tst) : bool :=
   (tnow st <=? t) && le_opt t (sys_deadline st) && le_opt t (pause st).
@@ -173,13 +230,15 @@ Definition do_tstep (c : tcfg) (st : tst) (s : tstep) : tst :=
   | TExt t a =>
       if text_ok t st
       then let st1 := do_action c a (set_now t st) in
-           post (TState t (running st1) (ticks st1) (isSome (pause st1)) (isSome (sys st1))) st1
+           post (TState t (running st1) (ticks st1) (check (dm st1) PAUSE) (isSome (sys st1)) (pause_due st1)) st1
       else post (TReject 5) st
   | TFireTick => fire_tick c st
   | TFirePause => fire_pause c st
+  | TFireTickAt t => fire_tick_at c t st
+  | TFirePauseAt t => fire_pause_at c t st
   end.
 
-Definition tinit (c : tcfg) : tst := mkTS false (cap c (c_start c)) (c_ival c) None None 0 [].
+Definition tinit (c : tcfg) : tst := mkTS false (cap c (c_start c)) (c_ival c) None None init 0 [].
 Definition trun (c : tcfg) (steps : list tstep) (st : tst) : tst := fold_left (do_tstep c) steps st.
 Definition ttrace (c : tcfg) (steps : list tstep) : list tev := rev (tlog (trun c steps (tinit c))).
 
@@ -190,9 +249,10 @@ Definition tev_eqb (a b : tev) : bool :=
   | TComplete t k, TComplete t' k' | TAdded t k, TAdded t' k' | TSubtracted t k, TSubtracted t' k' =>
       (t =? t') && (k =? k')
   | TTick t k r, TTick t' k' r' => (t =? t') && (k =? k') && Bool.eqb r r'
-  | TState t r k p s, TState t' r' k' p' s' =>
-      (t =? t') && Bool.eqb r r' && (k =? k') && Bool.eqb p p' && Bool.eqb s s'
+  | TState t r k p s d, TState t' r' k' p' s' d' =>
+      (t =? t') && Bool.eqb r r' && (k =? k') && Bool.eqb p p' && Bool.eqb s s' && (d =? d')
   | TOof, TOof => true
+  | TDue x, TDue y => x =? y
   | TReject x, TReject y => x =? y
   | _, _ => false
   end.
